@@ -225,6 +225,74 @@ def w_decomposable_sweep(ops, rng, n):
         op_q(ops, 'e\u0301.x' + c, '\u00e9.x' + ud.normalize('NFD', c))
 
 
+def op_ke(ops, cps):
+    ops.reset()
+    ops.lines.append('KE %s' % (','.join(str(c) for c in cps) if cps else '-'))
+
+
+def op_kd(ops, b):
+    ops.reset()
+    ops.lines.append('KD %s' % hx(b))
+
+
+SCALAR_EDGES = [0, 1, 0x2D, 0x41, 0x5A, 0x61, 0x7A, 0x7F, 0x80, 0xFF, 0x7FF, 0x800, 0xFFF, 0x1000, 0xD7FF, 0xE000, 0xFFFD, 0xFFFF, 0x10000, 0x1FFFF, 0x20000,
+                0x10FFFF, 0xE9, 0x4E2D, 0x1F600]
+
+
+def w_blocks(ops, rng, n):
+    """the building blocks of ada::idna one by one: code point sequences at the UTF-8 / UTF-16 length boundaries, the
+    structured strings, labels at the Punycode bias-adaptation boundaries, sequences that start with 'xn--'; and, for
+    the decoder, canonical encodings, their one-symbol mutations, delimiter edge cases and overflowing integers"""
+    for a in SCALAR_EDGES:
+        op_ke(ops, [a])
+        for b in SCALAR_EDGES:
+            op_ke(ops, [a, b])
+    op_ke(ops, [])
+    for s in structured_strings()[::7]:
+        op_ke(ops, [ord(c) for c in s])
+    try:
+        import json as _json
+        for labs in _json.load(open(os.path.join(os.path.dirname(os.path.abspath(__file__)), 'puny_boundary.json'))).values():
+            for lab in labs[:60]:
+                op_ke(ops, [ord(c) for c in lab])
+                op_kd(ops, lab.encode('punycode'))
+    except (OSError, ValueError):
+        pass
+    for s in ['xn--', 'xn--a', 'xn--\u00e9', 'xn-\u00e9', 'XN--\u00e9', '-', '--', 'a-', '-a', '\u00e9-', '-\u00e9', 'a-b-\u00e9', '\u00e9' * 30]:
+        op_ke(ops, [ord(c) for c in s])
+    for _ in range(n):
+        k = rng.choice([1, 2, 3, 4, 6, 10, 20])
+        cps = []
+        for _ in range(k):
+            r = rng.random()
+            cps.append(rng.choice(SCALAR_EDGES) if r < 0.3 else rng.randrange(0x61, 0x7B) if r < 0.5 else rng.randrange(0x80, 0x800) if r < 0.65
+                       else rng.randrange(0x800, 0xD800) if r < 0.8 else rng.randrange(0xE000, 0x110000))
+        op_ke(ops, cps)
+    # decoder
+    fixed = [b'', b'-', b'--', b'a-', b'-a', b'a', b'z', b'9', b'99999999', b'999999999', b'zzzzzzzzzz', b'a-99999999', b'epw-1648199w', b'b', b'ba', b'bb',
+             b'tda', b'a-tda', b'-tda', b'a--tda', b'a\xc3\xa9-tda', b'tda\xc3', b'tdA', b'TDA', b'td a', b'td.', b'td_', b'xn---tda', b'xn--a-tda', b'xn---4ia',
+             b'kva', b'0a', b'a0', b'aa', b'80', b'zz', b'a' * 70, b'9' * 12, b'a-' + b'z' * 20, b'ab-c-', b'ab-c-0']
+    for b in fixed:
+        op_kd(ops, b)
+    pool = [s for s in structured_strings()[::11]] + ['\u00e9', 'caf\u00e9', '\u4e2d\u6587', 'xn--\u00e9', 'a\U0001F600b', '\u05d0\u05d1', 'b\u00fccher']
+    for s in pool:
+        try:
+            enc = s.encode('punycode')
+        except UnicodeError:
+            continue
+        op_kd(ops, enc)
+        for _ in range(3):
+            m = bytearray(enc)
+            r = rng.random()
+            if m and r < 0.4:
+                m[rng.randrange(len(m))] = rng.choice(b'abz09-')
+            elif r < 0.7:
+                m.insert(rng.randrange(len(m) + 1), rng.choice(b'abz09-A'))
+            elif m:
+                del m[rng.randrange(len(m))]
+            op_kd(ops, bytes(m))
+
+
 def w_structured(ops, rng, n):
     for s in structured_strings():
         op_a(ops, s)
